@@ -1,4 +1,3 @@
 ---- MODULE MC_LogFile ----
 EXTENDS LogFile
-Vers == {"29 Oct 2020", "3 Mar 2020 - Update 2"}
 ====
